@@ -370,6 +370,7 @@ Fixpoint multiset_eqb (a b : list (list lev)) : bool :=
 Record case := mkCase {
   c_store : lstore;
   c_op : op;
+  c_ids : list string;             (* remove / dissociate: the ids requested *)
   c_failkey : option key;          (* every attempt on this key fails *)
   c_obs : list (list lev)          (* observed events, one list per goroutine *)
 }.
@@ -380,7 +381,34 @@ Definition fail_oracle (fk : option key) : nat -> key -> nat -> bool :=
 Definition model_episodes (c : case) : list (list lev) :=
   flat_map episodes (op_threads (c_store c) (c_op c) (fail_oracle (c_failkey c)) (fail_oracle (c_failkey c))).
 
-Definition agree (c : case) : bool :=
-  multiset_eqb (model_episodes c) (flat_map episodes (c_obs c)).
+Fixpoint strs_eqb (a b : list string) : bool :=
+  match a, b with
+  | [], [] => true
+  | x :: s, y :: t => String.eqb x y && strs_eqb s t
+  | _, _ => false
+  end.
 
-Definition ok (c : case) : bool := forallb thread_ok (c_obs c).
+(* the store-order oracle of remove / dissociate must be an ordering of
+   exactly the requested ids (nothing when one of them does not exist) *)
+Definition order_consistent (c : case) : bool :=
+  match c_op c with
+  | ORemove order | ODissociate order =>
+      match get_all (get_wl (c_store c)) (c_ids c) with
+      | None => match order with [] => true | _ => false end
+      | Some _ => strs_eqb (sort_uniq order) (sort_uniq (c_ids c))
+      end
+  | _ => true
+  end.
+
+Definition agree (c : case) : bool :=
+  order_consistent c && multiset_eqb (model_episodes c) (flat_map episodes (c_obs c)).
+
+(* the multi-node node-operation helper is never called by an operation with
+   more than one node; called directly it is only checked for order and nesting *)
+Definition thread_ok_weak (evs : list lev) : bool :=
+  k_ordered evs && k_nested evs && known_class evs.
+Definition ok (c : case) : bool :=
+  match c_op c with
+  | OHelperNodes _ true => forallb thread_ok_weak (c_obs c)
+  | _ => forallb thread_ok (c_obs c)
+  end.
